@@ -230,3 +230,32 @@ prop("C07", "exploration",
      ["id and derivation counters may advance on a refused call (they reserve nothing)",
       "a validly counter-signed reply to an own slate is C02's domain and is not sent here"],
      required_hist=["HonestReceive:ok", "RepeatReceive:refused", "HostileReceive:ok", "HostileReceive:refused", "BuildCoinbase:ok", "HostileFinalize:refused"])
+
+prop("C13", "exploration",
+     "session histories on OwnerAPIHandlerV3::post (in-process hyper requests): plaintext and encrypted (re-)key exchanges interleaved with requests; a client "
+     "model tracks the current and superseded keys. Unauthenticated requests: plaintext calls of 35 owner methods with effect-capable parameters "
+     "(create_account_path, init_send_tx, open/close/delete wallet, set_top_level_directory, get_mnemonic ...), envelopes under superseded or random keys, "
+     "bit flips in ciphertext/tag/nonce, malformed nonces (short, long, non-hex, non-ASCII), bad base64, batch arrays mixing a valid envelope with a plaintext "
+     "call, plaintext calls carrying envelope fields, odd jsonrpc/id values, non-JSON bodies, forged result objects. Oracle: effect or data => authenticated: "
+     "after each such request the LMDB dump, files, open/closed state, top-level directory and active account are unchanged, the reply carries no result, and "
+     "a probe under the current key still decrypts (session key unchanged). Authenticated requests (12 methods incl. calls that fail at the API level) must be "
+     "answered with an envelope that decrypts under the same key. distinct = (request class, method, reply error code); non-trivial = all",
+     [{"name": "c13", "cmd": "c13", "shards": {"quick": 12, "thorough": 16}, "crash_is_violation": True}],
+     {"quick": 5000, "thorough": 100000},
+     ["a request with valid ciphertext under the current key but another envelope method string is a don't-care (the statement only forbids effects of unauthenticated requests)"],
+     required_hist=["key-exchange:plaintext", "key-exchange:encrypted-reinit", "authenticated:inner-ok", "authenticated:inner-error", "unauthenticated:plaintext-call", "unauthenticated:envelope-under-superseded-key", "unauthenticated:bit-flipped-body", "unauthenticated:batch-array"])
+
+prop("C14", "exploration",
+     "a wallet opened with a keychain mask; 30 api::Owner methods (each with arguments valid for the current state: own initiated / locked slates, a "
+     "counterparty reply, an incoming invoice, a slatepack encrypted to the wallet, an exported payment proof, a freshly mined block so that refreshing "
+     "calls have something to write) are invoked with an absent, a random, a one-bit-off and another masked wallet's token, then with the right token. "
+     "Oracle: any wrong token leaves the complete LMDB dump and files unchanged; methods that cannot work without the master key must answer with the "
+     "invalid-mask error; if the right token made the method write state, every wrong token must have been answered with the invalid-mask error. "
+     "Differential: a masked and an unmasked wallet of the same seed driven by the same 40-120 operations (mine, refresh, send, receive, send+cancel, "
+     "account, scan) must have equal canonical projections after every operation. After close_wallet every method must fail; after reopening the new token "
+     "works and the old one does not. distinct = (method, token kind, outcome) and differential states; non-trivial = all",
+     [{"name": "c14", "cmd": "c14", "shards": {"quick": 8, "thorough": 16}, "crash_is_violation": True}],
+     {"quick": 2000, "thorough": 20000},
+     ["methods that only check the token for API consistency (accounts, post_tx, get_stored_tx, set_active_account) and pure readers are only required to leave the store unchanged",
+      "start_updater's own return value is a don't-care (the refresh it attempts fails inside the thread)"],
+     required_hist=["wrong-token:invalid-mask", "right-token:wrote-state", "differential:equal-throughout", "closed-wallet:refused", "reopened:works-with-new-token"])
